@@ -6,11 +6,7 @@ Export ListNotations.
 
 Definition NFFUEL : nat := 6%nat.
 
-Fixpoint words_upto (syms : list N) (k : nat) : list (list N) :=
-  match k with
-  | O => [[]]
-  | S k' => [] :: flat_map (fun w => map (fun a => a :: w) syms) (words_upto syms k')
-  end.
+From PFL Require Export Model.CfgWords.
 Definition all_words (syms : list N) (k : nat) : list (list N) := dedup (words_upto syms k).
 
 (* first word on which the two grammars disagree (the empty word is expected to be dropped when [drop_eps]) *)
